@@ -62,7 +62,7 @@ func genSigAlg(r *Rng, signerFam string, ownKeyAlg string) string {
 }
 
 var rdnKeys = []string{"C", "O", "OU", "CN", "SERIALNUMBER", "L", "ST", "STREET", "POSTALCODE", "1.2.3.4", "2.5.4.42", "1.3.6.1.4.1.99999.1", "1.2.840.113549.1.9.1", "0.9.2342.19200300.100.1.25"}
-var words = []string{"Acme", "Test", "Root", "Sub", "Leaf", "PKI", "Dept 7", "Zone-A", "x", "Service (prod)", "O'Neil", "a.b.c", "Müller", "Ærø", "日本", "node+1", "unit:4", "A/B"}
+var words = []string{"Acme", "Test", "Root", "Sub", "Leaf", "PKI", "Dept 7", "Zone-A", "x", "Service (prod)", "O'Neil", "a.b.c", "Müller", "Ærø", "日本", "node+1", "unit:4", "A/B", "AT&T", "*.example.org", "R&D *"}
 
 func genSubject(r *Rng, tag string) []RDN {
 	n := r.Range(1, 4)
